@@ -1,0 +1,34 @@
+// Verification hooks. Compiled only with `--cfg bpp_verif`; never part of a normal build.
+
+//! Hooks used by the out-of-tree verification harnesses (`--cfg bpp_verif` only)
+
+use alloc::vec::Vec;
+use std::sync::Mutex;
+
+use curve25519_dalek::scalar::Scalar;
+
+/// Re-exports of the public functions of the private `utils` module, so that they can be driven as units
+pub use crate::utils::generic::{compute_generator_padding, nonce};
+
+/// Observer called right after the prover's bit decomposition: `(a_li, a_ri, values, promises, bit_length)`
+pub type BitHook = fn(&mut Vec<Scalar>, &mut Vec<Scalar>, &[u64], &[Option<u64>], usize);
+
+static BIT_HOOK: Mutex<Option<BitHook>> = Mutex::new(None);
+
+/// Install (or remove) the bit-decomposition observer
+pub fn set_bit_hook(hook: Option<BitHook>) {
+    *BIT_HOOK.lock().unwrap_or_else(|p| p.into_inner()) = hook;
+}
+
+pub(crate) fn after_bit_decomposition(
+    a_li: &mut Vec<Scalar>,
+    a_ri: &mut Vec<Scalar>,
+    values: &[u64],
+    promises: &[Option<u64>],
+    bit_length: usize,
+) {
+    let hook = *BIT_HOOK.lock().unwrap_or_else(|p| p.into_inner());
+    if let Some(hook) = hook {
+        hook(a_li, a_ri, values, promises, bit_length);
+    }
+}
